@@ -220,6 +220,9 @@ func newSvc(c *onet.Context) (onet.Service, error) {
 	if err := s.RegisterStreamingHandler(streamT); err != nil {
 		return nil, err
 	}
+	if err := s.RegisterStreamingHandler(streamU); err != nil {
+		return nil, err
+	}
 	for _, r := range []struct {
 		f        interface{}
 		m        string
@@ -1652,6 +1655,13 @@ func generate(rng *rand.Rand, tier string) []interface{} {
 	// (a5) a handler that keeps what it received: Put / Get over kept and single-use connections
 	for n := 0; n < 8*mul; n++ {
 		ins = append(ins, storeScenario(rng, n))
+	}
+	// (a6) requests of one stream sharing one stop channel, the client goes away, others go on
+	for n := 0; n < 2*mul; n++ {
+		in := storeScenario(rng, n)
+		in.Kind = "share"
+		in.Store.Share = 4 + rng.Intn(5)
+		ins = append(ins, in)
 	}
 
 	// (b) sequential REST histories
